@@ -2,6 +2,7 @@ package shutterevents
 
 import (
 	"crypto/ecdsa"
+	"encoding/hex"
 	"math/big"
 
 	"github.com/ethereum/go-ethereum/common"
@@ -78,6 +79,19 @@ func vfStubGammasUnmarshal(g *shcrypto.Gammas, b []byte) error {
 	}
 	for i := 0; i < vfGammaCount; i++ {
 		*g = append(*g, vfTagged[vfP2](vfBytesTag(b[8*i:8*i+8])))
+	}
+	return nil
+}
+
+// The gob decoder of the same type, as the library implements it: no length check (a trailing
+// partial chunk is sliced out of range) and no error for malformed points. It is not what
+// decodeGammas is meant to call; the model makes such a slip visible instead of an engine fault.
+//
+//verif:stub (*github.com/shutter-network/shutter/shlib/shcrypto.Gammas).GobDecode
+func vfStubGammasGobDecode(g *shcrypto.Gammas, data []byte) error {
+	for i := 0; i < len(data); i += 8 {
+		chunk := data[i : i+8]
+		*g = append(*g, vfTagged[vfP2](vfBytesTag(chunk)))
 	}
 	return nil
 }
@@ -202,5 +216,21 @@ func H_C14_decode_arbitrary() {
 	} else {
 		vfReach("decoded")
 		vfAssert(y != nil, "event-on-success")
+	}
+}
+
+// The Gammas attribute of a PolyCommitment event on arbitrary bytes (as hex text produced by the
+// real encoder, so that counterexamples replay): malformed values are reported as an error, never
+// a crash and never silently accepted.
+func H_C14_gammas_attribute() {
+	b := vfBytes("gammas-bytes", 17)
+	vfGammaCount = vfLen("gammacount", 2)
+	g, err := decodeGammas(hex.EncodeToString(b))
+	if len(b) != 8*vfGammaCount || !vfUFBool("gammas-on-curve", b) {
+		vfAssert(err != nil, "malformed-gammas-are-reported")
+		vfReach("malformed")
+	} else {
+		vfAssert(err == nil && len(g) == vfGammaCount, "wellformed-gammas-are-decoded")
+		vfReach("wellformed")
 	}
 }
